@@ -149,6 +149,35 @@ def positive_helpers(Y):
     return out
 
 
+def _filtered_upstream(Y, clo):
+    """the closure `clo` is handed to an adaptor whose receiver chain holds a `.filter(K)` whose predicate K answers
+    `!is_deleted(<its parameter>)` on every path."""
+    parent = Y.fns.get(clo.path.rsplit("::{closure", 1)[0])
+    if parent is None:
+        return False
+    pv = FnView(parent)
+    for cs in parent.calls():
+        args = [simp_deep(pv.arg(cs, i, 14)) for i in range(len(cs.args))]
+        if not any(isinstance(a, tuple) and a and a[0] == "agg" and a[1] == clo.path for a in args[1:]):
+            continue
+        for x in walk(args[0]):
+            if isinstance(x, tuple) and x and x[0] == "call" and re.search(r"::filter$", F.strip_generics(x[1])) and len(x[2]) > 1:
+                k = simp_deep(x[2][1])
+                kf = Y.fns.get(k[1]) if isinstance(k, tuple) and k and k[0] == "agg" else None
+                if kf is None:
+                    continue
+                defs = answer_definitions(kf)
+
+                def neg_test(d):
+                    d = simp_deep(d)
+                    return d[0] in ("un", "not") and any(term_has_call(d, p) for p in NEG_TESTS) and \
+                        all(simp_deep(y)[0] in ("param", "field", "deref") for c in walk(d) if isinstance(c, tuple) and c and c[0] == "call"
+                            for y in c[2][:1])
+                if defs and all(neg_test(d) for d in defs):
+                    return True
+    return False
+
+
 def rule_b(R, ctx, rid="C17.b"):
     Y = ctx.yrs
     R.rule(rid, "R-GUARD visibility-predicate agreement: every site that reads an item's content through "
@@ -188,10 +217,11 @@ def rule_b(R, ctx, rid="C17.b"):
             v = FnView(fn)
             recv = simp_deep(v.arg(cs, 0))
             base = recv[2] if recv[0] == "field" else recv
-            if simp(base)[0] == "param" or (recv[0] == "param"):
+            if (simp(base)[0] == "param" or (recv[0] == "param")) and "{closure" not in fn.path:
                 R.ob(rid, fn, site, True, "accessor on its own parameter (%s): liveness is the callers' obligation" % show(recv),
                      cs.loc(), nontrivial=False)
                 continue
+            # a closure's parameter is an element its enclosing function took from a table or a list: the obligation stays here
             sites.append((fn, cs.bb, site, cs.loc(), recv))
     for fp in READ_TRAVERSALS:
         if "::weak::" in fp and "weak" not in Y.features:
@@ -245,6 +275,9 @@ def rule_b(R, ctx, rid="C17.b"):
         if not ok and recv is not None and any(term_has_call(recv, p) for p in filtered_ok):
             ok = True
             why = "item comes from a verified filtered iterator (%s)" % show(recv, 5)
+        if not ok and "{closure" in fn.path and _filtered_upstream(Y, fn):
+            ok = True
+            why = "the closure runs behind a `.filter(|e| !e.is_deleted())` of the same chain in its enclosing function"
         if not ok and root in READER_EXCEPTIONS:
             R.inventory(rid, fn, site, "accepted exception: " + READER_EXCEPTIONS[root], loc)
             continue
@@ -449,7 +482,43 @@ def rule_g(R, ctx, rid="C17.g"):
              "Branch::first returns an item with no liveness test (guards: %s)" % v.guard_descs(i)[:3], "%s:%s" % (fn.file, st["line"]))
 
 
+KIND_TABLES = [
+    # (function regex, enum, variants the table need not produce — with the reason)
+    (r"^<yrs::types::xml::XmlOut as std::convert::TryFrom<.*>>::try_from$", "yrs::types::xml::XmlOut", set(), 3),
+    (r"^<yrs::out::Out as std::convert::From<yrs::types::xml::XmlOut>>::from$", "yrs::out::Out",
+     {"Any", "YText", "YArray", "YMap", "YDoc", "YWeakLink", "UndefinedRef"}, 1),   # XML node kinds only
+    (r"^<yrs::branch::BranchPtr as std::convert::Into<yrs::out::Out>>::into$", "yrs::out::Out", {"Any", "YDoc"}, 1),  # a branch is never a plain value or a subdocument
+    (r"^yrs::transaction::ReadTxn::get$", "yrs::out::Out", {"Any"}, 1),     # root types
+    (r"^yrs::types::Event::target$", "yrs::out::Out", {"Any", "YDoc", "UndefinedRef"}, 1),   # one per Event variant
+]
+
+
+def rule_k(R, ctx, rid="C17.k"):
+    Y = ctx.yrs
+    R.rule(rid, "R-TABLE node-kind conversion tables are complete: every TryFrom<_> for XmlOut (what XmlNodes / TreeWalker / "
+                "siblings hand out of a stored value) constructs every variant of XmlOut, and the tables into Out (From<XmlOut>, "
+                "BranchPtr→Out, ReadTxn::get, Event::target) construct every variant of Out except the frozen ones that cannot "
+                "occur there — a kind that one sibling table forgets makes that read path end early or skip nodes the other "
+                "read paths show")
+    for pat, enum, skip, floor in KIND_TABLES:
+        fns = [f for f in Y.find(pat) if f.mir]
+        R.floor(rid, "conversion tables matching %s" % pat, len(fns), floor)
+        allv = {v[1] for v in Y.enums.get(enum, [])}
+        if not allv:
+            raise F.AnchorLost("enum %s" % enum)
+        for f in fns:
+            got = set()
+            for i, j, st in f.stmts():
+                ag = st["rv"].get("agg") if isinstance(st["rv"], dict) else None
+                if ag and str(ag.get("adt", "")) == enum or (ag and str(ag.get("adt", "")).endswith(enum.split("::", 1)[1])):
+                    got.add(ag.get("variant"))
+            want = allv - skip
+            R.ob(rid, f, "variants", want <= got, "constructs %s" % sorted(got) if want <= got else
+                 "never constructs %s::%s (its sibling tables do)" % (enum.rsplit("::", 1)[-1], sorted(want - got)))
+
+
 def check(ctx, R):
+    R.run("C17.k", rule_k, ctx)
     R.run("C17.a", rule_a, ctx)
     R.run("C17.b", rule_b, ctx)
     R.run("C17.c", rule_c, ctx)
